@@ -8,3 +8,6 @@ Inductive scheme := SNearest | SLinear.
    and the weights they get *)
 Record axdat (T : Type) := mkax { e_lo : Z; e_hi : Z; w_lo : T; w_hi : T }.
 Arguments mkax {T}. Arguments e_lo {T}. Arguments e_hi {T}. Arguments w_lo {T}. Arguments w_hi {T}.
+
+(* error classes of rejected calls *)
+Inductive errkind := ETypeErr | EValueErr.
